@@ -125,4 +125,9 @@ class Subroutine:  # pylint: disable=too-many-instance-attributes
         Returns:
             Returns a list of subroutines called by the subroutine.
         """
-        return list(set(bi.called_subroutine for bi in self._blocks if bi.is_callsub_block))
+        # dict.fromkeys removes the duplicates and, unlike a set, keeps the order of the first call of
+        # each subroutine: a set of objects is ordered by their addresses, which made the order of the
+        # function's blocks, and with it the order of some detector results, differ between runs.
+        return list(
+            dict.fromkeys(bi.called_subroutine for bi in self._blocks if bi.is_callsub_block)
+        )
